@@ -63,7 +63,7 @@ func (d *dereference) jSchema(astNode schema.ASTNode) {
 func (d *dereference) jSchemaNode(astNode schema.ASTNode, orItem bool) {
 	if rule, ok := astNode.Rules.Get("or"); ok {
 		for _, item := range rule.Items {
-			d.orItem(item, astNode.Value)
+			d.orItem(item, astNode)
 		}
 		return
 	}
@@ -97,7 +97,7 @@ func (d dereference) userType(name string) {
 	d.schema(ut)
 }
 
-func (d dereference) orItem(r schema.RuleASTNode, example string) {
-	mockAstNode := internal.OrItemToASTNode(r, example)
+func (d dereference) orItem(r schema.RuleASTNode, element schema.ASTNode) {
+	mockAstNode := internal.OrItemToASTNode(r, element)
 	d.jSchemaNode(mockAstNode, true)
 }
